@@ -103,6 +103,10 @@ func mwReplay(in io.Reader, raw bool, args []string) (*Summary, error) {
 		}
 		sum.Cases++
 		stats.MannWhitneyExactLimit, stats.MannWhitneyTiesExactLimit = mc.E, mc.Tl
+		if mc.E >= 1000 && mc.Tl >= 1000 && sum.Cases%2 == 0 {
+			// "always exact" is also said with the largest int: any limit at or above the sample sizes means the same
+			stats.MannWhitneyExactLimit, stats.MannWhitneyTiesExactLimit = math.MaxInt, math.MaxInt
+		}
 		defer func() {
 			if r := recover(); r != nil {
 				sum.viol("panic", c, "panic: %v", r)
@@ -190,6 +194,12 @@ func mwReplay(in io.Reader, raw bool, args []string) (*Summary, error) {
 			for mi, f := range mwMaps {
 				if mi > 0 && (ai+mi)%3 != 0 { // identity map always, the others on a rotating third
 					continue
+				}
+				if mi == mwZeroMaps+1 && len(mc.T) >= 2 && ai%2 == 0 {
+					// instead: the ranks spread over the whole float range, -1.7e308 .. +1.7e308 - finite values whose sums
+					// overflow to -Inf in one sample and +Inf in the other (ranks are about order, never about sums)
+					K := float64(len(mc.T))
+					f = func(k int) float64 { return (2*float64(k) - K - 1) / (K - 1) * 1.7e308 }
 				}
 				x1, x2 := materialize(mc.T, al.R, f)
 				if mi >= mwZeroMaps {
